@@ -97,14 +97,24 @@ func genC07(rng *rand.Rand, tier string) *core.Plan {
 		case r < 92:
 			p.Ops = append(p.Ops, core.Op{K: "check"})
 		default:
-			if overlap && rng.Intn(2) == 0 {
-				p.Ops = append(p.Ops, core.Op{K: "append", A: 1, B: int64(1 + rng.Intn(2))}, core.Op{K: "flush"})
+			if overlap {
+				p.Ops = append(p.Ops, core.Op{K: "append", A: 1, B: int64(1 + rng.Intn(3))}, core.Op{K: "flush"})
+				if rng.Intn(3) == 0 {
+					p.Ops = append(p.Ops, core.Op{K: "tick", A: 1})
+				}
 			}
 			p.Ops = append(p.Ops, core.Op{K: "restart"}) // clean shutdown + start
 		}
 	}
 	if overlap {
 		p.Cfg["overlap_close"] = 1
+		// SIGTERM right after new rows and a flush request: the flush job switches the index while the rows are
+		// still on their way to it
+		for k := 1 + rng.Intn(2); k > 0; k-- {
+			at := rng.Intn(len(p.Ops) + 1)
+			mac := []core.Op{{K: "append", A: 1, B: int64(1 + rng.Intn(3))}, {K: "flush"}, {K: "restart"}}
+			p.Ops = append(p.Ops[:at], append(mac, p.Ops[at:]...)...)
+		}
 	}
 	if rng.Intn(4) == 0 {
 		// late data of a family that leaves the writable range: more than a day passes (the log manager's
